@@ -27,6 +27,7 @@ RSign(a)    == CHOOSE r \in {-1, 0, 1} : TRUE
 RFloor(a)   == CHOOSE r : TRUE
 RRound(a)   == CHOOSE r : TRUE
 RPow(a, n)  == CHOOSE r : TRUE
+RRoundDec(a, d) == CHOOSE r : TRUE
 RToInt(a)   == CHOOSE r : TRUE
 RFromInt(a) == CHOOSE r : TRUE
 RIsNum(a)   == CHOOSE r \in BOOLEAN : TRUE
